@@ -321,6 +321,9 @@ func runC08(c *eng.Ctx) {
 	c.Rule("R16.8", "K6")
 	ruleStreamConfigPlumbing(c, "CompactEnabled", "CompactMaxGoroutines")
 	c.Floor(6)
+	// ---- R15.8 (shared) the configuration keys this property's switches hang on reach their fields
+	ruleConfigWiring(c, "R15.8")
+
 }
 
 func isScanResult(v ssa.Value) bool {
